@@ -100,7 +100,7 @@ fn server_scene(t: &Target, faults: &[Fault]) -> String {
 
 fn case_json(t: &Target, faults: &[Fault], out: &Outcome) -> Value {
     json!({
-        "hierarchy": t.hier.h.name,
+        "hierarchy": t.hier.name,
         "query": {"name": t.q.0.to_ascii(), "type": u16::from(t.q.1)},
         "faults": faults.iter().map(|f| f.to_json()).collect::<Vec<_>>(),
         "observed": format!("{out:?}").chars().take(1500).collect::<String>(),
@@ -162,9 +162,21 @@ fn exec(t: &Target, faults: &[Fault], rt: &tokio::runtime::Runtime, l: &mut Loca
     (log, clauses)
 }
 
+/// outcome class an honest run must have for a query in a zone of that published status
+fn want_class(st: Status, positive: bool) -> &'static str {
+    match (st, positive) {
+        (Status::Secure, true) => "ok:secure",
+        (Status::Secure, false) => "ok:negative-secure",
+        (Status::Insecure, true) => "ok:insecure",
+        (Status::Insecure, false) => "ok:negative-insecure",
+        (Status::Bogus, true) => "ok:bogus",
+        (Status::Bogus, false) => "error",
+    }
+}
+
 fn load_honest(t: &Target, k: &Key, rt: &tokio::runtime::Runtime) -> Message {
     let q = Query::new(name_of(k), RecordType::from(k.1));
-    let b = rt.block_on(t.hier.h.honest(&q));
+    let b = t.hier.served(k, rt.block_on(t.hier.h.honest(&q)));
     Message::from_vec(&b).expect("honest answer decodes")
 }
 
@@ -203,12 +215,16 @@ fn main() {
     ctx.set_rule(
         "hierarchies (real InMemoryZoneHandler zones signed by the real code, honest recursive upstream): see coverage.hierarchies; \
          queries per hierarchy: existing A, NODATA, NXDOMAIN, wildcard answer, explicit name below the wildcard's parent, DS, DNSKEY, NS \
-         (+ one in the neighbouring zone, + CNAMEs into a secure and an insecure zone). Positions = closure of the upstream queries \
+         (+ one in the neighbouring zone, + CNAMEs into a secure and an insecure zone). DS RRset dimension: every set of 1..3 DS kinds \
+         {matching supported, non-matching supported, unsupported algorithm, unsupported digest type} in EVERY served order (40 sequences) \
+         honestly (4 queries each), two of them (quick) / all 14 compositions (thorough) under the full fault enumeration; ground truth: \
+         a matching supported DS = signed zone, supported but none matching = nothing may validate, only unsupported = insecure. Positions = closure of the upstream queries \
          observed in the honest run and under every single fault. (L1) at every record of every position: drop, flip one RDATA bit, \
          replace RDATA, change owner, raise TTL, strip the RRset's RRSIGs, re-sign the RRset with {key of another secure zone that does \
          not enclose the owner (sibling / child), ancestor key [logged only], attacker key + injected DNSKEY, attacker zone atk., key of \
          an insecure zone, attacker key with the zone key's algorithm and key tag}; (L2) at every position: forge-unsigned, forge-signed-by \
          K, forge unsupported-algorithm DS, replay the zone's genuine wildcard RRset for the query name, strip answer/authority/both, \
+         serve the records / the RRSIGs of an RRset in another order (all orders up to 3 records), \
          rcode := 0/2/3, genuine SOA + forged unsigned apex NSEC, replace-by-denial(R) for R in {SOA,NS,A,NSEC,NSEC3,DS,DNSKEY} x owner \
          {qname, zone apex, parent apex, name in an insecure zone, name in a secure sibling} x {unsigned, genuine, attacker-signed}. All \
          singles; pairs = (forge/replay/strip move at the validator's query) x (every L2 move [thorough: and every L1 fault] at every other \
@@ -223,9 +239,23 @@ fn main() {
     // ---- A/B: hierarchies, honest runs (vacuity guard)
     let mut targets: Vec<Target> = vec![];
     let mut hier_names = vec![];
-    for name in hiers::names(thorough) {
+    // DS RRset composition x served order: full fault enumeration for two (quick) / for every
+    // composition in one order (thorough); every order of every composition honestly below
+    let mut all_names: Vec<String> = hiers::names(thorough).into_iter().map(String::from).collect();
+    if thorough {
+        for seq in hiers::ds_mix_sequences() {
+            let mut sorted: Vec<char> = seq.chars().collect();
+            sorted.sort_by_key(|c| hiers::DS_KINDS.iter().position(|k| k == c));
+            if sorted.iter().collect::<String>() == seq {
+                all_names.push(format!("ds-mix:{seq}"));
+            }
+        }
+    } else {
+        all_names.extend(["ds-mix:MA".to_string(), "ds-mix:NMD".to_string()]);
+    }
+    for name in all_names.iter().map(|s| s.as_str()) {
         let hier = Arc::new(hiers::build(name));
-        hier_names.push(name);
+        hier_names.push(name.to_string());
         for q in hier.queries.clone() {
             let honest = run_case(&hier, &q, &[], &rt);
             let mut t = Target { hier: hier.clone(), q: q.clone(), honest_answer: Message::query(), positions: vec![], singles: vec![] };
@@ -233,13 +263,8 @@ fn main() {
             let j = judge(&hier, &q, &t.honest_answer, &honest.outcome);
             let st = hier.status(&q.0, q.1);
             let positive = !t.honest_answer.answers.is_empty();
-            let want = match (st, positive) {
-                (Status::Secure, true) => "ok:secure",
-                (Status::Secure, false) => "ok:negative-secure",
-                (Status::Insecure, true) => "ok:insecure",
-                (Status::Insecure, false) => "ok:negative-insecure",
-            };
-            if j.class != want || !j.findings.is_empty() {
+            let want = want_class(st, positive);
+            if !(j.class == want || (st == Status::Bogus && j.class == "error")) || !j.findings.is_empty() {
                 ctx.machinery_failure(&format!("honest run of {} {} {} is {} (findings {:?}), published status demands {}", name, q.0, q.1, j.class, j.findings, want));
                 continue;
             }
@@ -252,6 +277,40 @@ fn main() {
                 }
             }
             targets.push(t);
+        }
+    }
+    // ---- B2: every DS RRset composition in EVERY served order, honest upstream (the order of the
+    // records of an RRset is not protected by the signature: each order is an honest upstream)
+    {
+        let seqs = hiers::ds_mix_sequences();
+        ctx.set("ds_rrset_sequences", json!(seqs.len()));
+        let mut secure_ok = 0;
+        for seq in &seqs {
+            let hier = Arc::new(hiers::build(&format!("ds-mix:{seq}")));
+            for q in hier.queries.clone() {
+                let run = run_case(&hier, &q, &[], &rt);
+                let mut t = Target { hier: hier.clone(), q: q.clone(), honest_answer: Message::query(), positions: vec![], singles: vec![] };
+                t.honest_answer = load_honest(&t, &key_of(&q.0, q.1), &rt);
+                let j = judge(&hier, &q, &t.honest_answer, &run.outcome);
+                let st = hier.status(&q.0, q.1);
+                let want = want_class(st, !t.honest_answer.answers.is_empty());
+                ctx.with_local(|l| {
+                    l.eval();
+                    l.outcome(&format!("ds-order-honest:{}", j.class));
+                    for f in &j.findings {
+                        l.violation(&format!("{}|honest-upstream(ds-rrset-order)", f.clause), &f.what, || case_json(&t, &[], &run.outcome));
+                    }
+                    if j.findings.is_empty() && !(j.class == want || (st == Status::Bogus && (j.class == "error" || j.class == "ok:bogus"))) {
+                        // not a soundness matter (e.g. Bogus where Secure is due): logged
+                        l.outcome_sample("obs:ds-order-honest-outcome-differs-from-published-status", || json!(format!("{} {} {}: {} instead of {}", hier.name, q.0, q.1, j.class, want)));
+                    } else if st == Status::Secure && j.findings.is_empty() {
+                        secure_ok += 1;
+                    }
+                });
+            }
+        }
+        if secure_ok == 0 {
+            ctx.machinery_failure("vacuous: no DS RRset order validated as Secure");
         }
     }
     eprintln!("[C07] hierarchies + honest runs: {:.1}s", ctx.elapsed_s());
@@ -349,7 +408,10 @@ fn main() {
         let qk = key_of(&t.q.0, t.q.1);
         // quick tier: pairs for the positive A, DS and DNSKEY queries of every hierarchy
         let first_of_hier = t.hier.queries.iter().position(|q| *q == t.q).unwrap_or(0);
-        if !thorough && ![0usize, 5, 6].contains(&first_of_hier) {
+        let ds_mix = t.hier.name.starts_with("ds-mix:");
+        // (ds-mix hierarchies: pairs for the positive A query; thorough: for six compositions)
+        let ds_mix_pairs = first_of_hier == 0 && (!thorough || ["ds-mix:M", "ds-mix:MA", "ds-mix:MD", "ds-mix:MN", "ds-mix:MNA", "ds-mix:NAD"].contains(&t.hier.name.as_str()));
+        if (ds_mix && !ds_mix_pairs) || (!ds_mix && !thorough && ![0usize, 5, 6].contains(&first_of_hier)) {
             cut_targets += 1;
             continue;
         }
@@ -357,14 +419,14 @@ fn main() {
             .singles
             .iter()
             .filter(|f| *f.q() == qk)
-            .filter(|f| matches!(f, Fault::Resp { mv: Move::ForgeUnsigned | Move::ForgeSignedBy(_) | Move::ReplayWildcard { .. } | Move::StripAnswer | Move::StripAuthority | Move::StripBoth, .. }))
+            .filter(|f| matches!(f, Fault::Resp { mv: Move::ForgeUnsigned | Move::ForgeSignedBy(_) | Move::ReplayWildcard { .. } | Move::Reorder { .. } | Move::StripAnswer | Move::StripAuthority | Move::StripBoth, .. }))
             .collect();
         for a in firsts {
             for b in t.singles.iter().filter(|f| *f.q() != qk) {
                 let ok = match b {
                     Fault::Resp { mv: Move::Denial { signed, .. }, .. } => thorough || *signed != faults::Signedness::Attacker,
                     Fault::Resp { .. } => true,
-                    Fault::Rec { .. } => thorough,
+                    Fault::Rec { .. } => thorough && !ds_mix,
                 };
                 if ok {
                     pairs.push((ti, a.clone(), b.clone()));
@@ -421,7 +483,7 @@ fn main() {
                     ctx.machinery_failure(&format!("server: honest {} {} {} gives {:?}", t.hier.h.name, t.q.0, t.q.1, out));
                 }
                 for x in f {
-                    ctx.with_local(|l| l.violation(&format!("{}|honest", x.clause), &x.what, || json!({"server": true, "hierarchy": t.hier.h.name, "query": {"name": t.q.0.to_ascii(), "type": u16::from(t.q.1)}, "faults": [], "client": format!("{c:?}"), "observed": format!("{out:?}")})));
+                    ctx.with_local(|l| l.violation(&format!("{}|honest", x.clause), &x.what, || json!({"server": true, "hierarchy": t.hier.name, "query": {"name": t.q.0.to_ascii(), "type": u16::from(t.q.1)}, "faults": [], "client": format!("{c:?}"), "observed": format!("{out:?}")})));
                 }
                 let _ = (st, ad);
             }
@@ -459,7 +521,7 @@ fn main() {
             if findings.is_empty() {
                 return;
             }
-            let cj = || json!({"server": true, "hierarchy": t.hier.h.name, "query": {"name": t.q.0.to_ascii(), "type": u16::from(t.q.1)}, "faults": [f.to_json()], "client": {"cd": c.cd, "do": c.dnssec_ok, "ad": c.ad}, "observed": format!("{out:?}")});
+            let cj = || json!({"server": true, "hierarchy": t.hier.name, "query": {"name": t.q.0.to_ascii(), "type": u16::from(t.q.1)}, "faults": [f.to_json()], "client": {"cd": c.cd, "do": c.dnssec_ok, "ad": c.ad}, "observed": format!("{out:?}")});
             // a fault that already fools the validator (listed under its own key) is expected to
             // show at the server too: counted under that key
             if let Some(k) = sv.get(f) {
@@ -488,7 +550,7 @@ fn main() {
     ctx.set("violating_single_faults_per_clause", json!(per_clause));
     ctx.with_local(|l| {
         for t in targets.iter().step_by(7) {
-            l.sample(json!({"hierarchy": t.hier.h.name, "query": format!("{} {}", t.q.0, t.q.1), "positions": t.positions.iter().map(|p| format!("{} {}", p.0 .0, RecordType::from(p.0 .1))).collect::<Vec<_>>(), "single_faults": t.singles.len()}));
+            l.sample(json!({"hierarchy": t.hier.name, "query": format!("{} {}", t.q.0, t.q.1), "positions": t.positions.iter().map(|p| format!("{} {}", p.0 .0, RecordType::from(p.0 .1))).collect::<Vec<_>>(), "single_faults": t.singles.len()}));
         }
     });
     ctx.finish(true);
